@@ -241,6 +241,9 @@ class Gen:
             # notnone on a function makes a None/empty argument an argument-validation error
             quals.append("notnone")
             val = r.choice([self.num, self.text])(1)
+        elif "print" in self.groups:
+            # printed stack elements ($.variables.s.0): a None element prints the whole list (IMPL, see CHOICES.md)
+            val = r.choice([self.num, self.text])(1)
         else:
             val = r.choice([self.num, self.text, self.anyval])(1)
         f = r.choice(["push", "push", "push", "push_distinct"])
